@@ -236,6 +236,33 @@ where
     }
 }
 
+#[cfg(futures_intrusive_verif)]
+impl<MutexType: RawMutex, T: Clone> GenericOneshotBroadcastChannel<MutexType, T> {
+    /// Reports the internal state while holding the internal lock
+    pub fn verif_inspect(
+        &self,
+        visit: &mut dyn FnMut(crate::verif::Visit) -> bool,
+    ) {
+        use crate::verif::{PrimInfo, Visit};
+        let state = self.inner.lock();
+        let (head, tail) = state.waiters.verif_ends();
+        visit(Visit::Prim(PrimInfo {
+            head,
+            tail,
+            flag: state.is_fulfilled,
+            count: state.value.is_some() as u64,
+            ..Default::default()
+        }));
+        crate::verif::walk_list(
+            &state.waiters,
+            0,
+            visit,
+            &super::channel_future::verif_recv_node_info,
+        );
+        visit(Visit::Done);
+    }
+}
+
 // Export a non thread-safe version using NoopLock
 
 /// A [`GenericOneshotBroadcastChannel`] which is not thread-safe.
@@ -367,6 +394,8 @@ mod if_alloc {
             T: Clone,
         {
             fn drop(&mut self) {
+                #[cfg(futures_intrusive_verif)]
+                crate::verif::point(14);
                 // Close the channel, before last sender gets destroyed
                 // TODO: We could potentially avoid this, if no receiver is left
                 self.inner.channel.close();
@@ -381,6 +410,8 @@ mod if_alloc {
             fn drop(&mut self) {
                 // TODO: This is broken, since it will already close the channel if only one receiver is closed.
                 // We need to count receivers, as in mpmc queue.
+                #[cfg(futures_intrusive_verif)]
+                crate::verif::point(14);
                 // Close the channel, before last receiver gets destroyed
                 // TODO: We could potentially avoid this, if no sender is left
                 self.inner.channel.close();
@@ -444,6 +475,30 @@ mod if_alloc {
                     wait_node: ListNode::new(RecvWaitQueueEntry::new()),
                     _phantom: PhantomData,
                 }
+            }
+        }
+
+        #[cfg(futures_intrusive_verif)]
+        impl<MutexType, T> GenericOneshotBroadcastSender<MutexType, T>
+        where
+            MutexType: RawMutex,
+            T: Clone + 'static,
+        {
+            /// The channel behind this handle
+            pub fn verif_channel(&self) -> &GenericOneshotBroadcastChannel<MutexType, T> {
+                &self.inner.channel
+            }
+        }
+
+        #[cfg(futures_intrusive_verif)]
+        impl<MutexType, T> GenericOneshotBroadcastReceiver<MutexType, T>
+        where
+            MutexType: RawMutex,
+            T: Clone + 'static,
+        {
+            /// The channel behind this handle
+            pub fn verif_channel(&self) -> &GenericOneshotBroadcastChannel<MutexType, T> {
+                &self.inner.channel
             }
         }
 
